@@ -2,7 +2,7 @@
 import ast
 
 from ..flow import artefacts, calls_in, find_calls
-from ..model import dotted_of, short
+from ..model import dotted_of, short, walk_function_body
 from ..rules import err, seq, anchor
 from ..types import Seq, Cls, strip_opt
 
@@ -41,6 +41,8 @@ def run(ctx) -> None:
     ctx.rule("ERR3", "collected errors returned", floor=40)
 
     battery = check_reg(ctx)
+    ctx.rule("SHAPE-GUARD", "unsupported type shapes are rejected in the position in which the generators assume their absence", floor=1)
+    check_shape_guard(ctx, "SHAPE-GUARD")
     # the stacking passes run BEFORE the verification battery: a silent de-duplication keyed by an attribute hides a duplicate
     # (e.g. two invariants with one description) from the uniqueness checks (shared with C05)
     ctx.rule("MERGE", "inherited collections are de-duplicated by identity only (shared with C05)", floor=2)
@@ -150,3 +152,35 @@ def check_reg(ctx):
         else:
             ctx.ok("REG", verify, call, what=what + ", result extended into the returned errors")
     return battery
+
+
+def check_shape_guard(ctx, rule: str) -> None:
+    """The generators rely on `no list of optional items` for the annotation BENEATH a top-level Optional
+    (`beneath_optional(prop.type_annotation)` is what they unroll).  The front end's rejection must therefore test the list
+    after removing a top-level Optional; testing `prop.type_annotation` itself lets `Optional[List[Optional[X]]]` through,
+    on which every generator fails an assertion."""
+    p = ctx.p
+    f = p.func("intermediate._translate:_verify_only_simple_type_patterns")
+    defs = {}
+    for n in walk_function_body(f.node):
+        if isinstance(n, ast.Assign) and len(n.targets) == 1 and isinstance(n.targets[0], ast.Name):
+            defs.setdefault(n.targets[0].id, []).append(n.value)
+    sites = []
+    for n in walk_function_body(f.node):
+        if isinstance(n, ast.If) and isinstance(n.test, ast.Call) and dotted_of(n.test.func) == "isinstance" and len(n.test.args) == 2 \
+                and (dotted_of(n.test.args[1]) or "").endswith("ListTypeAnnotation"):
+            inner = [m for m in ast.walk(n) if isinstance(m, ast.If) and m is not n and "items" in ast.unparse(m.test) and "OptionalTypeAnnotation" in ast.unparse(m.test)]
+            if inner:
+                sites.append((n, n.test.args[0]))
+    ctx.require_anchor(len(sites) >= 1, "_verify_only_simple_type_patterns tests the items of a list for Optional")
+    for n, subj in sites:
+        what = "list-of-optionals is tested beneath a top-level Optional"
+        ok = False
+        if isinstance(subj, ast.Name):
+            ok = any(isinstance(v, ast.Call) and (dotted_of(v.func) or "").endswith("beneath_optional") for v in defs.get(subj.id, []))
+        elif isinstance(subj, ast.Call) and (dotted_of(subj.func) or "").endswith("beneath_optional"):
+            ok = True
+        if ok:
+            ctx.ok(rule, f, n, what=what)
+        else:
+            ctx.fail(rule, f, n, f"the list test is applied to `{short(subj)}`, not to the annotation beneath a top-level Optional: `Optional[List[Optional[X]]]` is accepted, and every generator then fails its assertion `lists of optional values were not expected`", construct=what)
